@@ -27,7 +27,7 @@ vh::Outcome run_tw(const vh::Case& c) {
     rob::deflt()->vrt_reset(false);
     vh::Outcome out;
     bool begun[NL] = {false}, done[NL] = {false};
-    bool lbl_seen_true_concurrent = false, lbl_moved = false, lbl_datum_read = false, lbl_oor = false, lbl_shared_det = false;
+    bool lbl_seen_true_concurrent = false, lbl_moved = false, lbl_datum_read = false, lbl_oor = false, lbl_shared_det = false, lbl_handover = false;
     int triggers_in_flight = 0;
     out.res = vrt::run(c.sched, [&] {
         std::vector<gc::TriplineType> lines = gc::make_triplines(6);
@@ -39,9 +39,15 @@ vh::Outcome run_tw(const vh::Case& c) {
             if (l == 7) return std::make_unique<gc::TripWireTrigger>();
             return std::make_unique<gc::TripWireTrigger>(lines[(size_t)l]);
         };
+        // the user's own handle on an explicit line is handed over to the trigger: from then on only the trigger and the detectors refer to the line
+        auto make_trigger_handover = [&](int l) -> std::unique_ptr<gc::TripWireTrigger> {
+            return std::make_unique<gc::TripWireTrigger>(std::move(lines[(size_t)l]));
+        };
+        std::vector<gc::TripWireDetector> shared_det;
         auto make_detector = [&](int l) -> gc::TripWireDetector {
             if (l == 6) return gc::TripWireDetector(IDX);
             if (l == 7) return gc::TripWireDetector();
+            if (!lines[(size_t)l]) return shared_det[(size_t)l];               // the user handle is gone: copy an existing detector
             return gc::TripWireDetector(lines[(size_t)l]);
         };
         auto check_untripped_if_unbegun = [&](int l, const char* when) {
@@ -49,7 +55,6 @@ vh::Outcome run_tw(const vh::Case& c) {
             if (make_detector(l).isTripped()) vrt::fail("tripped-without-trigger", std::string("line reports tripped ") + when + " although no armed trigger on it was destroyed");
         };
         // detector objects shared by all fibers (the library itself shares one detector between threads in DelayedDestructor / SearchableObjectHolder)
-        std::vector<gc::TripWireDetector> shared_det;
         for (int l = 0; l < NL; ++l) shared_det.push_back(make_detector(l));
         for (size_t i = 0; i < c.fibers.size() && i < 4; ++i) {
             if (c.fibers[i].empty()) continue;
@@ -61,7 +66,10 @@ vh::Outcome run_tw(const vh::Case& c) {
                         // ---------------------------------------------------- trigger life cycle on one of the fiber's own lines
                         int l = (int)i * 2 + (op.a & 1);
                         int variant = op.b % 6;
-                        auto a = make_trigger(l);
+                        if (l < 6 && !lines[(size_t)l]) continue;                      // the handle was handed over earlier: no further trigger can be attached
+                        bool handover = l < 6 && (op.a & 2) && variant != 5 && variant != 4;
+                        if (handover) lbl_handover = true;
+                        auto a = handover ? make_trigger_handover(l) : make_trigger(l);
                         std::unique_ptr<gc::TripWireTrigger> armed;
                         if (variant == 0 || variant == 4) armed = std::move(a);
                         else if (variant == 1 || variant == 2) {
@@ -133,6 +141,7 @@ vh::Outcome run_tw(const vh::Case& c) {
     if (lbl_datum_read) out.labels.push_back("datum-read-after-trip");
     if (lbl_oor) out.labels.push_back("out-of-range");
     if (lbl_shared_det) out.labels.push_back("shared-detector-object");
+    if (lbl_handover) out.labels.push_back("line-handle-handed-to-trigger");
     if (c.sched.weak) out.labels.push_back("weak");
     if (out.res.stale_reads) out.labels.push_back("stale-read-taken");
     out.nontrivial = lbl_datum_read && (lbl_seen_true_concurrent || lbl_moved);
@@ -141,7 +150,7 @@ vh::Outcome run_tw(const vh::Case& c) {
 
 vh::GenSpec spec(bool th) { vh::GenSpec g; g.nfibers = 4; g.max_ops = th ? 6 : 4; g.ncodes = 8; g.amax = 8; g.bmax = 20; g.sched_len = th ? 160 : 112; g.aux_len = 32; g.aux_density = 30; g.allow_weak = true; return g; }
 vh::Register r("C19", spec(false), spec(true), run_tw,
-               "generated trigger life cycles (plain, move-construct with either destruction order, move-assign, repeated) on explicit, indexed and declared lines, polling detectors on the same "
+               "generated trigger life cycles (plain, move-construct with either destruction order, move-assign, repeated; the user's line handle kept or handed over to the trigger) on explicit, indexed and declared lines, polling detectors on the same "
                "and other lines, out-of-range indices; half of the cases in weak-memory mode; non-trivial = a detector read the published datum after observing the trip, and the trip was observed "
                "while a trigger destruction was in flight or a trigger had been moved");
 
